@@ -323,7 +323,13 @@ fn eval_case_inner(line: &str) -> String {
                 let one = |enc: &[u8]| match Frame::from_bytes(enc) {
                     Ok(g) => {
                         let same_fields = str_frame(&g) == str_frame(&f);
-                        let equal = g == f && f == g && hash_of(&g) == hash_of(&f) && g.clone() == g;
+                        let cloned_onto_another = {
+                            let mut c = g.clone();
+                            c.clone_from(&Frame::new(Address(0x5A5A), MsgType(0x5A), Data::try_new(vec![9u8; 7]).unwrap()));
+                            c.clone_from(&g);
+                            c == g && str_frame(&c) == str_frame(&g) && c.to_bytes() == g.to_bytes()
+                        };
+                        let equal = g == f && f == g && hash_of(&g) == hash_of(&f) && g.clone() == g && cloned_onto_another;
                         format!("{} {}", if equal || !same_fields { "OK" } else { "OK-BUT-NOT-EQUAL" }, str_frame(&g))
                     }
                     Err(e) => str_ferr(&e),
@@ -909,6 +915,15 @@ fn eval_case_inner(line: &str) -> String {
     }
 }
 
+trait IntoOwnedPage {
+    fn into_owned_page(self) -> Page<'static>;
+}
+impl IntoOwnedPage for Page<'_> {
+    fn into_owned_page(self) -> Page<'static> {
+        Page::from_bytes(self.width(), self.height(), self.as_bytes().to_vec()).expect("a page's own bytes have its own length")
+    }
+}
+
 fn eval_pg(t: &[&str]) -> String {
     let w: u32 = num(t[1]);
     let h: u32 = num(t[2]);
@@ -1003,7 +1018,31 @@ fn eval_pg(t: &[&str]) -> String {
                     c.set_all_pixels(true);
                     page.as_bytes() == &before[..]
                 };
-                q == page && page == q && h1.finish() == h2.finish() && page.clone() == page && independent
+                // Clone::clone_from / ToOwned::clone_into onto pages of OTHER shapes give a page that equals this one and
+                // behaves like it: the last pixel of every column and the first of the next can be switched independently
+                let clone_from_ok = {
+                    let mut all_ok = true;
+                    for (sw, sh) in [(8u32, 8u32), (8, 16), (3, 33), (0, 0)] {
+                        let mut scratch: Page<'static> = Page::new(PageId(0x5A), sw, sh);
+                        if sw > 0 {
+                            scratch.set_pixel(sw - 1, sh - 1, true);
+                        }
+                        scratch.clone_from(&page.clone().into_owned_page());
+                        let mut model = page.clone();
+                        all_ok &= scratch == page && scratch.as_bytes() == page.as_bytes();
+                        let (w, h) = (page.width(), page.height());
+                        if w > 0 && h > 0 {
+                            for (x, y) in [(0u32, h - 1), (w - 1, 0), (w.min(2) - 1, 0), (w - 1, h - 1)] {
+                                let v = !model.get_pixel(x, y);
+                                model.set_pixel(x, y, v);
+                                scratch.set_pixel(x, y, v);
+                                all_ok &= scratch.as_bytes() == model.as_bytes() && scratch.get_pixel(x, y) == v;
+                            }
+                        }
+                    }
+                    all_ok
+                };
+                q == page && page == q && h1.finish() == h2.finish() && page.clone() == page && independent && clone_from_ok
             }
             Err(_) => false,
         }
